@@ -10,6 +10,10 @@ CHECKS = {
    "stateless deviation-bounded DFS over fault/crash choice points on the real migrate.Executor, judged by a reference executor model",
    "Every placement of up to 2 (thorough: 3) faults - failing statement, failing revision write, simulated process death before/after either - over all 39 directory shapes (1-3 files x 1-3 statements) is executed on the real Executor with clean re-runs; order, no-skip, at-most-once-except-lost-bookkeeping and 'history never ahead of reality' are checked at every write and at the end.",
    "In-process recording driver and revision store stand in for the database (the property is about the executor's ordering of the two stores); a failed write persists nothing."),
+ "C11": ("model_checking",
+   "exhaustive enumeration of (directory, revision table, options) configurations on the real Executor.Pending/ExecuteN against an executable set-based reference model",
+   "Every directory over a universe of 4 (thorough: 5) versions (absent/migration/checkpoint) x every revision table (any subset applied, last optionally partial) x exec order x {none, allow-dirty, baseline=v} x {clean, dirty} is decided by the real Executor.Pending and compared - error class, out-of-order set and exact file list - with refPending written from the documented semantics; ExecuteN(n) for every n must run exactly the first n pending files and leave none of them pending.",
+   "Recording driver/store in process; fixed-width versions; cases the documentation does not define are counted, not judged."),
  "C12": ("model_checking",
    "exhaustive enumeration of (file, progress, edit) histories executed on the real migrate.Executor, judged by the prefix-equality rule",
    "All files of n<=5 statements x every partial progress k (revision produced by a real failing run) x every single edit (thorough: every pair of edits for n<=4) x 2 directory layouts are re-hashed and re-run on the real Executor: a changed applied prefix must give HistoryChangedError, zero executed statements, untouched history and no panic; a changed tail must resume with exactly the new tail and leave the version done for a following Pending.",
